@@ -131,7 +131,7 @@ def parse_pred(e: ast.AST, role: Callable[[ast.AST], Optional[str]], env: Dict[s
 
 def run(ctx) -> None:
   ctx.rule('R1', 'ListOptimalTrials considers a trial only if SUCCEEDED, all metrics present, no NaN objective', 3)
-  ctx.rule('R2', 'objective values of MINIMIZE metrics (and only those) are negated', 1)
+  ctx.rule('R2', 'objective values of MINIMIZE metrics (and only those) are negated; columns follow the study metric order', 2)
   ctx.rule('R3', 'each dominance predicate is Pareto dominance with consistent orientation and a '
            'single negation towards "optimal"', 5)
   ctx.rule('R4', 'GetBestTrials: sign flip for MINIMIZE, unsafe trials warped first, descending rank / Pareto routine', 3)
@@ -159,18 +159,23 @@ def r1_r2_service(ctx, svc, fi: FuncInfo) -> None:
     raise AnalysisError('ListOptimalTrials: append of the considered trial not found')
   c = cand[0]
   trialv = c.args[0].id
-  conds: List[ast.AST] = []
-  for a in ancestors(c):
-    if isinstance(a, ast.If) and any(x is c for st in a.body for x in ast.walk(st)):
-      t = a.test
-      conds += t.values if isinstance(t, ast.BoolOp) and isinstance(t.op, ast.And) else [t]
-    if isinstance(a, ast.FunctionDef):
-      break
-  txt = [unparse(x, 0) for x in conds]
-  has_state = any(isinstance(x, ast.Compare) and dotted(x.left) == f'{trialv}.state' and isinstance(x.ops[0], ast.Eq)
-                  and (dotted(x.comparators[0]) or '').endswith('.SUCCEEDED') for x in conds)
-  has_subset = any('issubset' in t or '<=' in t and 'metric' in t for t in txt)
-  has_nan = any(('isnan' in t or 'isfinite' in t) for t in txt)
+  g = cfgmod.CFG(fi.node)
+  node = g.node_of(c)
+  conds = g.controlling_conditions(node)
+  txt = [('' if pol else 'not ') + unparse(x, 0) for x, pol in conds]
+
+  def cmp_is(x, pol, left, right_suffix):
+    if not (isinstance(x, ast.Compare) and len(x.ops) == 1 and dotted(x.left) == left
+            and (dotted(x.comparators[0]) or '').endswith(right_suffix)):
+      return False
+    return (isinstance(x.ops[0], ast.Eq) and pol) or (isinstance(x.ops[0], ast.NotEq) and not pol)
+
+  has_state = any(cmp_is(x, pol, f'{trialv}.state', '.SUCCEEDED') for x, pol in conds)
+  has_subset = any(pol and ('issubset' in unparse(x, 0) or ('<=' in unparse(x, 0) and 'metric' in unparse(x, 0))) for x, pol in conds) \
+      or any(pol and isinstance(x, ast.Compare) and isinstance(x.ops[0], ast.Eq) and 'len(' in unparse(x, 0) and 'metric' in unparse(x, 0)
+             for x, pol in conds)
+  has_nan = any(('isnan' in unparse(x, 0) and not pol and 'any(' in unparse(x, 0)) or ('isnan' in unparse(x, 0) and not pol)
+                or ('isfinite' in unparse(x, 0) and pol) for x, pol in conds)
   ctx.check(has_state, 'R1', 'considered only if state == SUCCEEDED', c,
             'append is control-dependent on trial.state == SUCCEEDED',
             'infeasible / unfinished trials can enter the candidate set', construct='state-filter', func=fi.qualname)
@@ -203,6 +208,31 @@ def r1_r2_service(ctx, svc, fi: FuncInfo) -> None:
       def plain(stmts):
         return any(isinstance(st, ast.Assign) and isinstance(st.value, (ast.Subscript, ast.Name, ast.Attribute)) for st in stmts)
       ok = neg(n.body) and plain(n.orelse) and not neg(n.orelse)
+  # column order: the objective vector is built by iterating the study's metric specs, so that
+  # every trial's vector has the same column order
+  vec_iters = []
+  for n2 in ast.walk(fi.node):
+    if isinstance(n2, ast.For) and any(isinstance(cc.func, ast.Attribute) and cc.func.attr == 'append'
+                                       and 'vector' in unparse(cc.func.value, 0) for cc in flow.calls_in(n2)) \
+        and isinstance(n2.target, (ast.Tuple, ast.Name)) and n2 is not None:
+      vec_iters.append(n2.iter)
+    if isinstance(n2, ast.Assign) and isinstance(n2.value, (ast.ListComp,)) and any(
+        isinstance(t, ast.Name) and 'vector' in t.id for t in n2.targets):
+      vec_iters.append(n2.value.generators[0].iter)
+  inner = [it for it in vec_iters if 'trial' not in unparse(it, 0).split('.')[0] or 'metric_id_to' in unparse(it, 0)]
+  prov_ok = False
+  g2 = cfgmod.CFG(fi.node)
+  pv = flow.Provenance(g2, on_attr=lambda a: 'through')
+  for it in vec_iters:
+    o = pv.origins(it, g2.node_of(it))
+    from_spec = any(k == 'attr' and (dotted(v) or '').endswith('study_spec.metrics') for k, v in o)
+    from_trial = any(k == 'attr' and (dotted(v) or '').endswith('final_measurement.metrics') for k, v in o)
+    if from_spec and not from_trial and 'raw_trial_list' not in unparse(it, 0):
+      prov_ok = True
+  ctx.check(prov_ok, 'R2', 'objective vector columns follow the study\'s metric order', fi.node,
+            'vector built by iterating the configured metrics',
+            'the objective vector is built in the order each trial happens to list its metrics: trials reporting the same metrics '
+            'in a different order are compared column against the wrong column', construct='column-order', func=fi.qualname)
   ctx.check(ok, 'R2', 'sign flip keyed by GoalType.MINIMIZE', fi.node,
             'MINIMIZE arm negates, the other arm does not',
             'objective values are not negated for exactly the MINIMIZE metrics (dominance would be '
@@ -446,6 +476,10 @@ VARIANTS = [
             'np.any(points[is_optimal] > point, axis=1)', 'np.any(points[is_optimal] >= point, axis=1)', rule='R3'),
     Variant('best-no-flip', 'vizier/_src/pythia/local_policy_supporters.py',
             'flip_sign_for_minimization_metrics=True,\n        dtype=np.float32', 'flip_sign_for_minimization_metrics=False,\n        dtype=np.float32', rule='R4'),
+    Variant('benign-continue-guard', _SVC,
+            "    for trial in raw_trial_list:\n      trial_metric_id_to_value = {",
+            "    for trial in raw_trial_list:\n      if trial.state != study_pb2.Trial.State.SUCCEEDED:\n        continue\n      trial_metric_id_to_value = {",
+            expect='silent'),
     Variant('benign-demorgan', _SVC, 'np.all(ys[i] <= ys[j]) & np.any(ys[j] > ys[i])',
             'np.all(ys[i] <= ys[j]) & ~np.all(ys[j] <= ys[i])', expect='silent'),
     Variant('benign-swap-operands', 'vizier/_src/algorithms/evolution/nsga2.py',
